@@ -56,3 +56,24 @@ Proof.
   cbv zeta. split; [|repeat split; reflexivity].
   repeat constructor; cbn; unfold sentinel; try discriminate; intros H; discriminate H.
 Qed.
+
+(** Inside a program: the directive takes no room in the address layout, emits no bytes of its own,
+    leaves the resolver untouched, and hands its blocks (already shifted by delta when the node was
+    built) to the writer verbatim, in record order, while the current block keeps growing. *)
+From A816 Require Import Model.Program Model.Codegen.
+Theorem C13_transparent : forall w r blocks a,
+  pc_after w r (NIps blocks) a = Ok (r, a) /\ node_emit w r (NIps blocks) = Ok (r, []).
+Proof. intros. split; reflexivity. Qed.
+Theorem C13_reemitted : forall w st blocks x,
+  a_val (r_reloc (e_r st)) = x ->
+  emit_step w st (NIps blocks) x =
+  Ok {| e_r := e_r st; e_block := e_block st; e_baddr := e_baddr st;
+        e_out := e_out st ++ map (fun ab => (snd ab, fst ab)) blocks |}.
+Proof.
+  intros w st blocks x H. unfold emit_step. rewrite H, Z.eqb_refl. cbn. rewrite app_nil_r. destruct st; reflexivity.
+Qed.
+(** The node is built from the file with the delta evaluated where the directive stands. *)
+Theorem C13_codegen : forall w gen s path e fi,
+  gen_one w gen s (AIncludeIps path e fi) =
+  (do delta <- eval_raw w (cg_r s) e; do blocks <- w_ips w path delta; Ok (s, [NIps blocks])).
+Proof. reflexivity. Qed.
